@@ -155,7 +155,9 @@ def solve_spg_subproblem(x, cauchyStep, r, bounds, hess_vec_func, precond, trSiz
         ds = d@s
         qMax = max(qHistory)
         alpha = line_search(ds, sBs, q, qMax, settings)
-        alpha = min(1.0, alpha) if sBs > 0 else 1.0
+        # keep the step a convex combination of feasible points: 0 <= alpha <= 1
+        # (the exact line search returns a negative alpha when s is not a descent direction of the model)
+        alpha = min(1.0, max(0.0, alpha)) if sBs > 0 else 1.0
 
         z += alpha*s
         d += alpha*Bs
